@@ -19,10 +19,13 @@ import (
 	"encoding/base64"
 	"fmt"
 	"io"
+	"sync"
 )
 
 var (
-	providers = make(map[string]Provider)
+	// providersMu guards providers.
+	providersMu sync.RWMutex
+	providers   = make(map[string]Provider)
 )
 
 // Provider is the interface for a session provider.
@@ -43,6 +46,9 @@ func Register(name string, provider Provider) {
 		panic("session: Register provide is nil")
 	}
 
+	providersMu.Lock()
+	defer providersMu.Unlock()
+
 	if _, dup := providers[name]; dup {
 		panic("session: Register called twice for provider " + name)
 	}
@@ -52,6 +58,9 @@ func Register(name string, provider Provider) {
 
 // Unregister unregisters a session provider.
 func Unregister(name string) {
+	providersMu.Lock()
+	defer providersMu.Unlock()
+
 	delete(providers, name)
 }
 
@@ -62,7 +71,9 @@ type Manager struct {
 
 // NewManager creates a new manager for a provider.
 func NewManager(providerName string) (*Manager, error) {
+	providersMu.RLock()
 	p, ok := providers[providerName]
+	providersMu.RUnlock()
 	if !ok {
 		return nil, fmt.Errorf("session: unknown provider %q", providerName)
 	}
